@@ -79,6 +79,30 @@ def generate(tier, seed):
                 cases.append(case("eng", sp, adapter_M(lines), "-", steps))
                 n += 1
             dist["%s/%s" % (name, k)] = n
+    # a policy definition with a SECOND column whose name ends in "_eft" (parent_eft) before the effect column: the effect of a
+    # matched rule is the value of the column named exactly eft, under the plain and under the suffixed type alike
+    dist["second_eft_like_column"] = 0
+    for ek in ("DO", "AD", "PR", "AO"):
+        for pf in (["sub", "obj", "act", "parent_eft", "eft"], ["sub", "obj", "act", "eft", "parent_eft"], ["sub", "parent_eft", "obj", "act", "eft"]):
+            d = {"r": SOA, "p": pf, "e": ek, "m": (lambda k: eq3(k)), "g": {}}
+            for k in ("2", "3"):
+                copies = ("", "2") if k == "2" else ("", "2", "3")
+                sp = spec_of(d, copies)
+                for _ in range(4 if tier == "quick" else 60):
+                    rs = []
+                    for _ in range(rnd.randint(1, 3)):
+                        v = {"sub": rnd.choice(["alice", "bob"]), "obj": "data1", "act": "read",
+                             "parent_eft": rnd.choice(["allow", "deny", "x"]), "eft": rnd.choice(["allow", "deny", "x"])}
+                        r = [v[f] for f in pf]
+                        if r not in rs:
+                            rs.append(r)
+                    lines = [["p", "p"] + r for r in rs] + [["p", "p" + k] + r for r in rs]
+                    steps = []
+                    for r in ([u, "data1", "read"] for u in ("alice", "bob", "carol")):
+                        steps.append(Q_ec(k, r))
+                        steps.append(Q_e(r))
+                    cases.append(case("eng", sp, adapter_M(lines), "-", steps))
+                    dist["second_eft_like_column"] += 1
     return {
         "cases": cases,
         "exhaustive": False,
